@@ -184,3 +184,619 @@ Proof.
   - (* CreateRawTransaction: txids *) apply check_all_panic in H. destruct H as (a & _ & H). exact (Ht _ _ H).
   - (* AutoCreate: fee *) destruct (check_parse_amount fee) eqn:E; try discriminate. exact (string_to_amount_no_panic _ _ E).
 Qed.
+
+(* ---------------------------------------------------------------- txmgr: the current keystore *)
+Lemma exists_msg_tx_panic fx w h i p :
+  exists_msg_tx fx w h i = Panic p -> p = PExistsTxCurNil /\ fx_cur_nil fx = false /\ cur2 w = None.
+Proof.
+  unfold exists_msg_tx. destruct (cur2 w); [discriminate|].
+  destruct (fx_cur_nil fx); [discriminate|]. intros H; inversion H. auto.
+Qed.
+
+Lemma exists_out_point_panic fx w h i p :
+  exists_out_point fx w h i = Panic p -> p = PExistsUtxoCurNil /\ fx_cur_nil fx = false /\ cur2 w = None.
+Proof.
+  unfold exists_out_point. destruct (cur2 w); [discriminate|].
+  destruct (fx_cur_nil fx); [discriminate|]. intros H; inversion H. auto.
+Qed.
+
+Lemma script_address_scan_panic q fx w p :
+  script_address_scan q fx w = Panic p -> p = q /\ fx_cur_nil fx = false /\ cur2 w = None.
+Proof.
+  unfold script_address_scan. destruct (cur2 w); [discriminate|].
+  destruct (fx_cur_nil fx); [discriminate|]. intros H; inversion H. auto.
+Qed.
+
+Lemma lookup_prev_panic fx w h i p :
+  lookup_prev fx w h i = Panic p -> p = PExistsTxCurNil /\ fx_cur_nil fx = false /\ cur2 w = None.
+Proof.
+  unfold lookup_prev. intros H. apply bind_panic in H. destruct H as [H|(r & _ & H)].
+  - exact (exists_msg_tx_panic _ _ _ _ _ H).
+  - destruct r; try discriminate. destruct (st_unmined (st w) h); discriminate.
+Qed.
+
+(* what a successful look-up returns in a well-formed store *)
+Lemma lookup_prev_ok fx w h i t m txof :
+  (forall h i t ht, st_credit (st w) h i = Found t ht ->
+     t = txof h /\ 0 <= i /\ exists o, nth_error t (Z.to_nat i) = Some o /\ wf_out o) ->
+  (forall h t, st_unmined (st w) h = Some t -> t = txof h) ->
+  lookup_prev fx w h i = Ok (t, m) ->
+  t = txof h /\ (m <> None -> 0 <= i /\ exists o, nth_error t (Z.to_nat i) = Some o /\ wf_out o).
+Proof.
+  intros Hc Hu H. unfold lookup_prev in H. apply bind_ok in H. destruct H as (r & Hr & H).
+  unfold exists_msg_tx in Hr. destruct (cur2 w); [|destruct (fx_cur_nil fx); discriminate].
+  inversion Hr; subst r; clear Hr.
+  destruct (st_credit (st w) h i) as [t' ht| |] eqn:E; try discriminate.
+  - inversion H; subst. destruct (Hc _ _ _ _ E) as (-> & Hi & Ho). split; [reflexivity|]. intros _. auto.
+  - destruct (st_unmined (st w) h) as [t'|] eqn:U; [|discriminate]. inversion H; subst.
+    split; [exact (Hu _ _ U)|]. intros C; congruence.
+Qed.
+
+(* ---------------------------------------------------------------- constructTxIn *)
+Lemma cti_one_panic fx w i p : 0 <= in_vout i -> cti_one fx w i = Panic p -> guarded_by fx p = false.
+Proof.
+  intros Hv. unfold cti_one. destruct (hash_from_str (in_txid i)) as [h|]; [|discriminate].
+  intros H. apply bind_panic in H. destruct H as [H|(tb & _ & H)].
+  - destruct (lookup_prev_panic _ _ _ _ _ H) as (-> & Hf & _). exact Hf.
+  - destruct (fx_cti_index fx && (lenZ (fst tb) <=? in_vout i)) eqn:G; [discriminate|].
+    apply bind_panic in H. destruct H as [H|(o & Ho & H)].
+    + destruct (idx_panic _ _ _ _ H) as (-> & Hr). cbn [guarded_by].
+      destruct (fx_cti_index fx); [|reflexivity]. cbn [andb] in G. bool_hyps.
+      exfalso. destruct Hr; lia.
+    + destruct (ov_parse o) as [c|]; [|discriminate].
+      destruct (negb (ov_mine o)); [discriminate|].
+      destruct c; try discriminate. destruct (snd tb); [discriminate|].
+      destruct (fx_cti_block fx) eqn:F; [discriminate|]. inversion H; subst. exact F.
+Qed.
+
+Lemma cti_loop_panic fx w inputs p : inputs_ok inputs -> cti_loop fx w inputs = Panic p -> guarded_by fx p = false.
+Proof.
+  induction inputs as [|i r IH]; cbn [cti_loop]; [discriminate|]. intros Hi H.
+  pose proof (Forall_inv Hi) as Hv. pose proof (Forall_inv_tail Hi) as Ht.
+  apply bind_panic in H. destruct H as [H|(c & _ & H)]; [exact (cti_one_panic _ _ _ _ Hv H)|].
+  apply bind_panic in H. destruct H as [H|(cs & _ & H)]; [exact (IH Ht H)|discriminate].
+Qed.
+
+Lemma construct_tx_in_panic fx w inputs p :
+  inputs_ok inputs -> construct_tx_in fx w inputs = Panic p -> guarded_by fx p = false.
+Proof. intros Hi. unfold construct_tx_in. destruct (cur w); [apply cti_loop_panic; exact Hi|discriminate]. Qed.
+
+Lemma cti_loop_length fx w inputs cs : cti_loop fx w inputs = Ok cs -> length cs = length inputs.
+Proof.
+  revert cs. induction inputs as [|i r IH]; cbn [cti_loop]; intros cs H.
+  - inversion H. reflexivity.
+  - apply bind_ok in H. destruct H as (c & _ & H). apply bind_ok in H. destruct H as (cs' & Hcs & H).
+    inversion H; subst. cbn. f_equal. exact (IH _ Hcs).
+Qed.
+
+(* ---------------------------------------------------------------- estimateSignedSize *)
+Lemma est_one_panic fx w h i p : wf w -> est_one fx w h i = Panic p -> guarded_by fx p = false.
+Proof.
+  intros (txof & Hc & _ & _) H. unfold est_one in H. apply bind_panic in H. destruct H as [H|(r & Hr & H)].
+  - destruct (exists_msg_tx_panic _ _ _ _ _ H) as (-> & Hf & _). exact Hf.
+  - destruct r as [t ht| |]; try discriminate.
+    unfold exists_msg_tx in Hr. destruct (cur2 w); [|destruct (fx_cur_nil fx); discriminate].
+    inversion Hr as [E]. destruct (Hc _ _ _ _ E) as (_ & Hi & o & Ho & (_ & k & Hk)).
+    rewrite (idx_nth _ _ _ _ Hi Ho) in H. cbn [bind] in H. rewrite Hk in H.
+    destruct (ov_keys o); discriminate.
+Qed.
+
+Lemma est_loop_panic fx w ops p : wf w -> est_loop fx w ops = Panic p -> guarded_by fx p = false.
+Proof.
+  intros Hw. induction ops as [|[h i] r IH]; cbn [est_loop]; [discriminate|]. intros H.
+  apply bind_panic in H. destruct H as [H|(u & _ & H)]; [exact (est_one_panic _ _ _ _ _ Hw H)|exact (IH H)].
+Qed.
+
+Lemma estimate_manual_tx_fee_panic fx w inputs p :
+  wf w -> estimate_manual_tx_fee fx w inputs = Panic p -> guarded_by fx p = false.
+Proof.
+  intros Hw. unfold estimate_manual_tx_fee. destruct (parse_inputs inputs); [apply est_loop_panic; exact Hw|discriminate].
+Qed.
+
+(* ---------------------------------------------------------------- CreateRawTransaction *)
+Lemma wm_create_raw_transaction_panic fx w inputs ce ro p :
+  wf w -> inputs_ok inputs -> wm_create_raw_transaction fx w inputs ce ro = Panic p -> guarded_by fx p = false.
+Proof.
+  intros Hw Hi H. unfold wm_create_raw_transaction in H.
+  apply bind_panic in H. destruct H as [H|(senders & Hs & H)]; [exact (construct_tx_in_panic _ _ _ _ Hi H)|].
+  apply bind_panic in H. destruct H as [H|(u & _ & H)].
+  - destruct ce; [|discriminate].
+    destruct (fx_senders fx && null senders) eqn:G; [discriminate|].
+    apply bind_panic in H. destruct H as [H|(c & _ & H)]; [|discriminate].
+    destruct (idx_panic _ _ _ _ H) as (-> & Hr). cbn [guarded_by].
+    destruct (fx_senders fx); [|reflexivity]. cbn [andb] in G.
+    destruct senders; [discriminate|]. exfalso. unfold lenZ in Hr. cbn [length] in Hr. lia.
+  - apply bind_panic in H. destruct H as [H|(u' & _ & H)]; [exact (estimate_manual_tx_fee_panic _ _ _ _ Hw H)|].
+    destruct ro; discriminate.
+Qed.
+
+(* ---------------------------------------------------------------- signWitnessTx *)
+Lemma assoc_in {A} k (l : list (N * A)) v : assoc k l = Some v -> In (k, v) l.
+Proof.
+  induction l as [|[k' v'] r IH]; cbn; [discriminate|].
+  destruct (k =? k')%N eqn:E; [|auto]. apply N.eqb_eq in E. intros H; inversion H; subst. left; reflexivity.
+Qed.
+
+Lemma sign_loop_panic fx w so ins : forall cache p txof,
+  (forall h i t ht, st_credit (st w) h i = Found t ht ->
+     t = txof h /\ 0 <= i /\ exists o, nth_error t (Z.to_nat i) = Some o /\ wf_out o) ->
+  (forall h t, st_unmined (st w) h = Some t -> t = txof h) ->
+  (forall h i b, st_utxo (st w) h i = Some b -> 0 <= i < lenZ (txof h)) ->
+  (forall h e, In (h, e) cache -> fst e = txof h) ->
+  sign_loop fx w so cache ins = Panic p -> guarded_by fx p = false.
+Proof.
+  induction ins as [|[h i] r IH]; intros cache p txof Hc Hu Hx Hcache H; cbn [sign_loop] in H; [discriminate|].
+  apply bind_panic in H. destruct H as [H|(ec & Hec & H)].
+  - destruct (assoc h cache); [discriminate|].
+    apply bind_panic in H. destruct H as [H|(e & _ & H)]; [|discriminate].
+    destruct (lookup_prev_panic _ _ _ _ _ H) as (-> & Hf & _). exact Hf.
+  - (* the entry used for this hash is the transaction the hash names *)
+    assert (Ht : fst (fst ec) = txof h /\ forall h' e', In (h', e') (snd ec) -> fst e' = txof h').
+    { destruct (assoc h cache) as [e|] eqn:A.
+      - inversion Hec; subst. cbn. split; [exact (Hcache _ _ (assoc_in _ _ _ A))|exact Hcache].
+      - apply bind_ok in Hec. destruct Hec as ([t m] & Hl & Hec). inversion Hec; subst. cbn.
+        destruct (lookup_prev_ok _ _ _ _ _ _ _ Hc Hu Hl) as (-> & _).
+        split; [reflexivity|]. intros h' e' [E|E]; [inversion E; subst; reflexivity|exact (Hcache _ _ E)]. }
+    destruct Ht as (Ht & Hcache').
+    match type of H with (if ?c then _ else _) = _ => destruct c; [discriminate|] end.
+    apply bind_panic in H. destruct H as [H|(fl & Hfl & H)].
+    + destruct (exists_out_point_panic _ _ _ _ _ H) as (-> & Hf & _). exact Hf.
+    + destruct fl as [[|]|]; try discriminate.
+      unfold exists_out_point in Hfl. destruct (cur2 w); [|destruct (fx_cur_nil fx); discriminate].
+      inversion Hfl as [E]. pose proof (Hx _ _ _ E) as Hr. rewrite <- Ht in Hr.
+      destruct (idx_in_bounds PSignIndex (fst (fst ec)) i Hr) as (o & Eo). rewrite Eo in H. cbn [bind] in H.
+      destruct (negb so); [discriminate|].
+      destruct (snd (fst ec)).
+      * exact (IH _ _ _ Hc Hu Hx Hcache' H).
+      * destruct (fx_sign_meta fx) eqn:F; [exact (IH _ _ _ Hc Hu Hx Hcache' H)|].
+        inversion H; subst. exact F.
+Qed.
+
+Lemma wm_sign_raw_tx_panic fx w flag tx so p :
+  wf w -> wm_sign_raw_tx fx w flag tx so = Panic p -> guarded_by fx p = false.
+Proof.
+  intros (txof & Hc & Hu & Hx) H. unfold wm_sign_raw_tx in H. destruct (cur w); [|discriminate].
+  destruct (negb (valid_flag flag)); [discriminate|].
+  eapply sign_loop_panic; eauto. intros h e [].
+Qed.
+
+(* ---------------------------------------------------------------- automatic transactions *)
+Lemma add_one_panic fx w h i p :
+  wf w -> (exists t ht, st_credit (st w) h i = Found t ht) -> add_one fx w h i = Panic p -> guarded_by fx p = false.
+Proof.
+  intros (txof & Hc & _ & _) (t & ht & E) H. unfold add_one in H.
+  apply bind_panic in H. destruct H as [H|(r & Hr & H)].
+  - destruct (exists_msg_tx_panic _ _ _ _ _ H) as (-> & Hf & _). exact Hf.
+  - unfold exists_msg_tx in Hr. destruct (cur2 w); [|destruct (fx_cur_nil fx); discriminate].
+    inversion Hr; subst r. rewrite E in H.
+    destruct (Hc _ _ _ _ E) as (_ & Hi & o & Ho & _). rewrite (idx_nth _ _ _ _ Hi Ho) in H. cbn [bind] in H.
+    destruct (ov_parse o); discriminate.
+Qed.
+
+Lemma add_loop_panic fx w ops p :
+  wf w -> (forall h i, In (h, i) ops -> exists t ht, st_credit (st w) h i = Found t ht) ->
+  add_loop fx w ops = Panic p -> guarded_by fx p = false.
+Proof.
+  intros Hw. induction ops as [|[h i] r IH]; cbn [add_loop]; intros Hs H; [discriminate|].
+  apply bind_panic in H. destruct H as [H|(u & _ & H)].
+  - exact (add_one_panic _ _ _ _ _ Hw (Hs _ _ (or_introl eq_refl)) H).
+  - apply IH; [intros; apply Hs; right; assumption|exact H].
+Qed.
+
+Lemma find_eligible_panic fx w n p : find_eligible fx w n = Panic p -> guarded_by fx p = false.
+Proof.
+  unfold find_eligible. intros H. apply bind_panic in H. destruct H as [H|(u & _ & H)].
+  - destruct (script_address_scan_panic _ _ _ _ H) as (-> & Hf & _). exact Hf.
+  - destruct n; [discriminate|]. destruct (cur2 w); [discriminate|].
+    destruct (fx_cur_nil fx) eqn:F; [discriminate|]. inversion H; subst. exact F.
+Qed.
+
+Lemma wm_auto_create_panic fx w sel ro p :
+  wf w -> (forall h i, In (h, i) sel -> exists t ht, st_credit (st w) h i = Found t ht) ->
+  wm_auto_create fx w sel ro = Panic p -> guarded_by fx p = false.
+Proof.
+  intros Hw Hs H. unfold wm_auto_create in H. destruct (cur w); [|discriminate].
+  apply bind_panic in H. destruct H as [H|(u & _ & H)]; [exact (find_eligible_panic _ _ _ _ H)|].
+  apply bind_panic in H. destruct H as [H|(u' & _ & H)]; [exact (est_loop_panic _ _ _ _ Hw H)|].
+  apply bind_panic in H. destruct H as [H|(u'' & _ & H)]; [exact (add_loop_panic _ _ _ _ Hw Hs H)|].
+  destruct ro; discriminate.
+Qed.
+
+(* ---------------------------------------------------------------- balances, addresses *)
+Lemma wm_balance_panic q fx w scan p :
+  wm_balance q fx w scan = Panic p -> p = q /\ fx_cur_nil fx = false.
+Proof.
+  unfold wm_balance. destruct (cur w); [|discriminate]. destruct scan; [|discriminate].
+  intros H. destruct (script_address_scan_panic _ _ _ _ H) as (-> & Hf & _). auto.
+Qed.
+
+Lemma wm_all_addresses_panic fx w p : wm_all_addresses_with_pubkey fx w = Panic p -> guarded_by fx p = false.
+Proof.
+  unfold wm_all_addresses_with_pubkey. destruct (cur w); [|discriminate]. destruct (cur2 w); [discriminate|].
+  destruct (fx_cur_nil fx) eqn:F; [discriminate|]. intros H; inversion H; subst. exact F.
+Qed.
+
+Lemma wm_new_address_no_panic w next p :
+  (forall mas, next = Some mas -> length mas = 1%nat) -> wm_new_address w next <> Panic p.
+Proof.
+  intros Hn H. unfold wm_new_address in H. destruct (cur w); [|discriminate].
+  destruct next as [mas|]; [|discriminate]. specialize (Hn _ eq_refl).
+  destruct mas as [|m [|? ?]]; try discriminate.
+Qed.
+
+(* ---------------------------------------------------------------- GetTxHistory / selectRelatedTx *)
+Lemma sumZ_nonneg l : Forall (fun x => 0 <= x) l -> 0 <= sumZ l.
+Proof. induction 1; unfold sumZ in *; cbn [fold_right]; lia. Qed.
+
+Lemma select_related_tx_no_panic lens : forall num count p,
+  Forall (fun x => 0 <= x) lens -> 0 <= count <= num -> select_related_tx lens num count <> Panic p.
+Proof.
+  induction lens as [|l r IH]; intros num count p Hl Hc H; cbn [select_related_tx] in H; [discriminate|].
+  inversion Hl; subst.
+  destruct (count + l <=? num) eqn:E; bool_hyps.
+  - apply (IH num (count + l) p); [assumption|lia|exact H].
+  - destruct (num - count =? 0) eqn:Z0; [discriminate|]. bool_hyps.
+    apply bind_panic in H. destruct H as [H|(x & _ & H)]; [|discriminate].
+    destruct (slice_panic _ _ _ _ H) as (_ & Hr). rewrite lenZ_repeat in Hr by assumption. lia.
+Qed.
+
+Lemma history_loop_no_panic batches : forall wanted count p,
+  Forall (Forall (fun x => 0 <= x)) batches -> 0 <= count <= wanted -> history_loop batches wanted count <> Panic p.
+Proof.
+  induction batches as [|b r IH]; intros wanted count p Hb Hc H; cbn [history_loop] in H; [discriminate|].
+  inversion Hb; subst. pose proof (sumZ_nonneg _ H2).
+  destruct (count + sumZ b <=? wanted) eqn:E; bool_hyps.
+  - apply (IH wanted (count + sumZ b) p); [assumption|lia|exact H].
+  - destruct (wanted - count =? 0) eqn:Z0; [discriminate|]. bool_hyps.
+    apply (select_related_tx_no_panic b (wanted - count) 0 p); [assumption|lia|exact H].
+Qed.
+
+Lemma get_tx_history_panic fx batches wanted p :
+  Forall (Forall (fun x => 0 <= x)) batches -> get_tx_history fx batches wanted = Panic p ->
+  fx_select_neg fx = false /\ wanted < 0.
+Proof.
+  intros Hb H. unfold get_tx_history in H.
+  destruct (wanted =? 0) eqn:Z0.
+  - exfalso. apply (history_loop_no_panic batches 200 0 p); [assumption|lia|exact H].
+  - destruct (fx_select_neg fx && (wanted <? 0)) eqn:G.
+    + exfalso. apply (history_loop_no_panic batches 200 0 p); [assumption|lia|exact H].
+    + destruct (Z_lt_le_dec wanted 0) as [Hn|Hp].
+      * split; [|assumption]. destruct (fx_select_neg fx); [|reflexivity]. cbn [andb] in G. bool_hyps. lia.
+      * exfalso. apply (history_loop_no_panic batches wanted 0 p); [assumption|lia|exact H].
+Qed.
+
+Lemma select_related_tx_site lens : forall num c p, select_related_tx lens num c = Panic p -> p = PSelectSlice.
+Proof.
+  induction lens as [|l r IH]; intros num c p H; cbn [select_related_tx] in H; [discriminate|].
+  destruct (c + l <=? num); [exact (IH _ _ _ H)|]. destruct (num - c =? 0); [discriminate|].
+  apply bind_panic in H. destruct H as [H|(x & _ & H)]; [|discriminate].
+  destruct (slice_panic _ _ _ _ H) as (-> & _). reflexivity.
+Qed.
+
+Lemma history_loop_site batches : forall wn c p, history_loop batches wn c = Panic p -> p = PSelectSlice.
+Proof.
+  induction batches as [|b r IH]; intros wn c p H; cbn [history_loop] in H; [discriminate|].
+  destruct (c + sumZ b <=? wn); [exact (IH _ _ _ H)|]. destruct (wn - c =? 0); [discriminate|].
+  exact (select_related_tx_site _ _ _ _ H).
+Qed.
+
+Lemma get_tx_history_site fx batches wanted p : get_tx_history fx batches wanted = Panic p -> p = PSelectSlice.
+Proof. unfold get_tx_history. apply history_loop_site. Qed.
+
+(* ---------------------------------------------------------------- the handler goroutines *)
+Lemma task_queue_panic fx w p : task_queue fx w = Panic p -> p = PTaskChanNil /\ fx_taskchan fx = false /\ taskchan w = false.
+Proof.
+  unfold task_queue. destruct (taskchan w); [discriminate|]. destruct (fx_taskchan fx); [discriminate|].
+  intros H; inversion H. auto.
+Qed.
+
+Lemma async_import_panic fx txs p : async_import fx txs = Panic p -> p = PImportRecNil /\ fx_import_rec fx = false.
+Proof.
+  induction txs as [|[| |] r IH]; cbn [async_import]; try discriminate; [|exact IH].
+  destruct (fx_import_rec fx); [exact IH|]. intros H; inversion H. auto.
+Qed.
+
+Lemma filter_tx_input_guarded nout i p : 0 <= nout -> 0 <= i -> filter_tx_input true nout i <> Panic p.
+Proof.
+  intros Hn Hi H. unfold filter_tx_input in H. cbn [andb] in H.
+  destruct (nout <=? i) eqn:E; [discriminate|]. bool_hyps.
+  apply bind_panic in H. destruct H as [H|(x & _ & H)]; [|discriminate].
+  destruct (idx_panic _ _ _ _ H) as (_ & Hr). rewrite lenZ_repeat in Hr by assumption. lia.
+Qed.
+
+Lemma filter_imp_input_no_panic nout i p : 0 <= i < nout -> filter_imp_input nout i <> Panic p.
+Proof.
+  intros Hr H. unfold filter_imp_input in H. apply bind_panic in H. destruct H as [H|(x & _ & H)]; [|discriminate].
+  destruct (idx_panic _ _ _ _ H) as (_ & Hb). rewrite lenZ_repeat in Hb by lia. lia.
+Qed.
+
+Lemma filter_block_loc_no_panic ntx i p : 0 <= i < ntx -> filter_block_loc ntx ntx i <> Panic p.
+Proof.
+  intros Hr H. unfold filter_block_loc in H. apply bind_panic in H. destruct H as [H|(x & _ & H)]; [|discriminate].
+  destruct (idx_panic _ _ _ _ H) as (_ & Hb). rewrite lenZ_repeat in Hb by lia. lia.
+Qed.
+
+(* ---------------------------------------------------------------- every request *)
+Lemma answer_no_panic e p : answer e <> Panic p.
+Proof. unfold answer. destruct (e_rest_ok e); discriminate. Qed.
+
+Lemma inputs_ok_map trim inputs :
+  inputs_ok inputs -> inputs_ok (map (fun i => {| in_txid := trim (in_txid i); in_vout := in_vout i |}) inputs).
+Proof. unfold inputs_ok. intros H. apply Forall_map. exact H. Qed.
+
+Theorem deep_panic_only_unfixed trim fx e w r p :
+  wf w -> wf_env e -> selected_ok w e -> req_ok r ->
+  deep trim fx e w r = Panic p -> guarded_by fx p = false.
+Proof.
+  intros Hw (Hna & Hhb) Hsel Hr H.
+  destruct r; cbn [deep req_ok] in H, Hr;
+    try (exfalso; exact (answer_no_panic _ _ H)).
+  - (* RemoveWallet *)
+    apply bind_panic in H. destruct H as [H|(u & _ & H)]; [|exfalso; exact (answer_no_panic _ _ H)].
+    destruct (task_queue_panic _ _ _ H) as (-> & Hf & _). exact Hf.
+  - (* ImportWallet *)
+    apply bind_panic in H. destruct H as [H|(u & _ & H)]; [|exfalso; exact (answer_no_panic _ _ H)].
+    destruct (task_queue_panic _ _ _ H) as (-> & Hf & _). exact Hf.
+  - (* ImportMnemonic *)
+    apply bind_panic in H. destruct H as [H|(u & _ & H)]; [|exfalso; exact (answer_no_panic _ _ H)].
+    destruct (task_queue_panic _ _ _ H) as (-> & Hf & _). exact Hf.
+  - (* GetAddressBalance *)
+    apply bind_panic in H. destruct H as [H|(u & _ & H)]; [|exfalso; exact (answer_no_panic _ _ H)].
+    destruct (wm_balance_panic _ _ _ _ _ H) as (-> & Hf). exact Hf.
+  - (* GetWalletBalance *)
+    apply bind_panic in H. destruct H as [H|(u & _ & H)]; [|exfalso; exact (answer_no_panic _ _ H)].
+    destruct (wm_balance_panic _ _ _ _ _ H) as (-> & Hf). exact Hf.
+  - (* GetUtxo *)
+    apply bind_panic in H. destruct H as [H|(u & _ & H)]; [|exfalso; exact (answer_no_panic _ _ H)].
+    destruct (wm_balance_panic _ _ _ _ _ H) as (-> & Hf). exact Hf.
+  - (* CreateAddress *)
+    apply bind_panic in H. destruct H as [H|(u & _ & H)]; [|exfalso; exact (answer_no_panic _ _ H)].
+    exfalso. exact (wm_new_address_no_panic _ _ _ Hna H).
+  - (* GetAllAddressesWithPubkey *) exact (wm_all_addresses_panic _ _ _ H).
+  - (* TxHistory *)
+    destruct (cur w); [|discriminate]. destruct (get_tx_history_panic _ _ _ _ Hhb H) as (Hf & _).
+    rewrite (get_tx_history_site _ _ _ _ H).
+    exact Hf.
+  - (* CreateRawTransaction *)
+    exact (wm_create_raw_transaction_panic _ _ _ _ _ _ Hw (inputs_ok_map trim _ Hr) H).
+  - (* WalletManager.CreateRawTransaction *)
+    exact (wm_create_raw_transaction_panic _ _ _ _ _ _ Hw Hr H).
+  - (* AutoCreateTransaction *) exact (wm_auto_create_panic _ _ _ _ _ Hw Hsel H).
+  - (* CreateStakingTransaction *) exact (wm_auto_create_panic _ _ _ _ _ Hw Hsel H).
+  - (* GetTransactionFee *)
+    destruct (cur w); [|discriminate]. destruct inputs as [|i0 inputs'].
+    + exact (wm_auto_create_panic _ _ _ _ _ Hw Hsel H).
+    + apply bind_panic in H. destruct H as [H|(u & _ & H)].
+      * exfalso. apply check_all_panic in H. destruct H as (a & _ & H). exact (check_no_panic _ _ _ H).
+      * apply bind_panic in H. destruct H as [H|(u' & _ & H)]; [|exfalso; exact (answer_no_panic _ _ H)].
+        exact (estimate_manual_tx_fee_panic _ _ _ _ Hw H).
+  - (* WalletManager.EstimateManualTxFee *) exact (estimate_manual_tx_fee_panic _ _ _ _ Hw H).
+  - (* SignRawTransaction *)
+    destruct (decode_hex_str rawtx); [|discriminate]. destruct (e_decode_tx e l); [|discriminate].
+    apply bind_panic in H. destruct H as [H|(u & _ & H)]; [exfalso; exact (check_no_panic _ _ _ H)|].
+    exact (wm_sign_raw_tx_panic _ _ _ _ _ _ Hw H).
+  - (* WalletManager.GetTxHistory *)
+    destruct (cur w); [|discriminate]. destruct (get_tx_history_panic _ _ _ _ Hhb H) as (Hf & _).
+    rewrite (get_tx_history_site _ _ _ _ H).
+    exact Hf.
+Qed.
+
+(* a panic can only come from a site whose switch is off *)
+Theorem handle_panic_only_unfixed trim fx e w r p :
+  wf w -> wf_env e -> selected_ok w e -> req_ok r ->
+  handle trim fx e w r = Panic p -> guarded_by fx p = false.
+Proof.
+  intros Hw He Hs Hr H. unfold handle in H. apply bind_panic in H. destruct H as [H|(u & _ & H)].
+  - exfalso. exact (prologue_no_panic _ _ _ H).
+  - exact (deep_panic_only_unfixed _ _ _ _ _ _ Hw He Hs Hr H).
+Qed.
+
+Lemma guarded_all_fixed p : guarded_by all_fixed p = true.
+Proof. destruct p; reflexivity. Qed.
+
+(* C19 for the repaired code: every request is answered or rejected, in every well-formed state,
+   whether or not a wallet is selected, whatever the background tasks do to the current keystore
+   between two reads (cur2), whether or not the task queue exists yet *)
+Theorem handle_no_panic trim e w r p :
+  wf w -> wf_env e -> selected_ok w e -> req_ok r -> handle trim all_fixed e w r <> Panic p.
+Proof.
+  intros Hw He Hs Hr H. pose proof (handle_panic_only_unfixed _ _ _ _ _ _ Hw He Hs Hr H) as G.
+  rewrite guarded_all_fixed in G. discriminate.
+Qed.
+
+(* the API proper (gRPC requests, sequential use, task queue created): the code as found could only
+   panic at the three pending-input sites *)
+Definition api_request (r : request) : Prop :=
+  match r with
+  | RGetAllAddressesWithPubkey | RWmCreateRawTransaction _ _ _ | RWmEstimateManualTxFee _ | RWmGetTxHistory _ => False
+  | RTxHistory count _ => 0 <= count       (* a uint32 *)
+  | _ => True
+  end.
+
+Theorem api_as_found_panics_only_at_pending_sites trim e w r p :
+  wf w -> wf_env e -> selected_ok w e -> req_ok r -> api_request r ->
+  sequential w -> taskchan w = true ->
+  handle trim as_found e w r = Panic p -> p = PCtiIndex \/ p = PCtiBlockNil \/ p = PSignMetaNil.
+Proof.
+  intros Hw He Hs Hr Ha Hseq Htc H.
+  (* re-run the analysis with the switches of the sites that cannot fire here turned on *)
+  set (fx := {| fx_cti_index := false; fx_cti_block := false; fx_senders := true; fx_sign_meta := false; fx_sign_len0 := false;
+                fx_cur_nil := true; fx_import_rec := true; fx_taskchan := true; fx_select_neg := true |}).
+  assert (E : handle trim as_found e w r = handle trim fx e w r).
+  { unfold handle. destruct (prologue trim r) eqn:P; cbn [bind]; try reflexivity.
+    destruct (cur w) as [c|] eqn:C.
+    - (* a wallet is selected: both reads see it *)
+      assert (Hc2 : forall q, script_address_scan q as_found w = script_address_scan q fx w).
+      { intros q. unfold script_address_scan. rewrite Hseq, C. reflexivity. }
+      assert (Hm : forall h i, exists_msg_tx as_found w h i = exists_msg_tx fx w h i).
+      { intros h i. unfold exists_msg_tx. rewrite Hseq, C. reflexivity. }
+      assert (Ho : forall h i, exists_out_point as_found w h i = exists_out_point fx w h i).
+      { intros h i. unfold exists_out_point. rewrite Hseq, C. reflexivity. }
+      assert (Hl : forall h i, lookup_prev as_found w h i = lookup_prev fx w h i).
+      { intros h i. unfold lookup_prev. rewrite Hm. reflexivity. }
+      assert (Hcti : forall inputs, cti_loop as_found w inputs = cti_loop fx w inputs).
+      { induction inputs as [|i r' IH]; [reflexivity|]. cbn [cti_loop]. rewrite IH. unfold cti_one. 
+        destruct (hash_from_str (in_txid i)); [|reflexivity]. rewrite Hl. reflexivity. }
+      assert (Hest : forall ops, est_loop as_found w ops = est_loop fx w ops).
+      { induction ops as [|[h i] r' IH]; [reflexivity|]. cbn [est_loop]. rewrite IH. unfold est_one. rewrite Hm. reflexivity. }
+      assert (Hadd : forall ops, add_loop as_found w ops = add_loop fx w ops).
+      { induction ops as [|[h i] r' IH]; [reflexivity|]. cbn [add_loop]. rewrite IH. unfold add_one. rewrite Hm. reflexivity. }
+      assert (Hsign : forall so ins cache, sign_loop as_found w so cache ins = sign_loop fx w so cache ins).
+      { intros so. induction ins as [|[h i] r' IH]; intros cache; [reflexivity|]. cbn [sign_loop].
+        rewrite Hl.
+        match goal with |- bind ?x _ = _ => destruct x as [[e0 c0]| |] end; cbn [bind fst snd]; try reflexivity.
+        rewrite Ho.
+        change (fx_sign_len0 as_found) with false. change (fx_sign_len0 fx) with false.
+        change (fx_sign_meta as_found) with false. change (fx_sign_meta fx) with false.
+        destruct (if lenZ (fst e0) =? 0 then false else lenZ (fst e0) - 1 <? i); [reflexivity|].
+        destruct (exists_out_point fx w h i) as [[[|]|]| |]; cbn [bind]; try reflexivity.
+        destruct (idx PSignIndex (fst e0) i); cbn [bind]; try reflexivity.
+        destruct (negb so); [reflexivity|]. destruct (snd e0); [apply IH|reflexivity]. }
+      assert (Hfe : forall n, find_eligible as_found w n = find_eligible fx w n).
+      { intros n. unfold find_eligible. rewrite Hc2. rewrite Hseq, C. reflexivity. }
+      assert (Hcr : forall inputs ce ro, inputs <> [] -> wm_create_raw_transaction as_found w inputs ce ro = wm_create_raw_transaction fx w inputs ce ro).
+      { intros inputs ce ro Hne. unfold wm_create_raw_transaction, construct_tx_in, estimate_manual_tx_fee. rewrite C, Hcti.
+        destruct (cti_loop fx w inputs) as [senders| |] eqn:L; cbn [bind]; try reflexivity.
+        assert (senders <> []) as Hsn.
+        { apply cti_loop_length in L. destruct senders; [destruct inputs; [congruence|discriminate]|congruence]. }
+        destruct senders as [|s0 ss]; [congruence|]. cbn [fx_senders as_found fx null andb].
+        destruct (parse_inputs inputs); [rewrite Hest|]; reflexivity. }
+      destruct r; cbn [deep api_request] in *; try contradiction; try reflexivity;
+        unfold task_queue, wm_balance, wm_auto_create, wm_sign_raw_tx, estimate_manual_tx_fee;
+        rewrite ?Htc, ?C, ?Hc2, ?Hfe, ?Hest, ?Hadd, ?Hsign; try reflexivity.
+      + (* TxHistory *) unfold get_tx_history. cbn [fx_select_neg as_found fx andb].
+        destruct (count =? 0) eqn:Z0; [reflexivity|]. destruct (count <? 0) eqn:N; bool_hyps; [lia|reflexivity].
+      + (* CreateRawTransaction *)
+        apply Hcr. (* the prologue has checked that there is an input *)
+        cbn [prologue] in P. destruct inputs; [|discriminate].
+        destruct (check_locktime locktime); cbn in P; discriminate.
+      + (* GetTransactionFee *)
+        destruct inputs; [rewrite ?Hfe, ?Hest, ?Hadd; reflexivity|].
+        destruct (check_all (fun i0 : inp => check_txid_len (in_txid i0)) (i :: inputs)); cbn [bind]; try reflexivity.
+        destruct (parse_inputs (i :: inputs)); [rewrite Hest|]; reflexivity.
+      + (* SignRawTransaction *)
+        destruct (decode_hex_str rawtx); [|reflexivity]. destruct (e_decode_tx e l); [|reflexivity].
+        destruct (check_pass_len pass); cbn [bind]; try reflexivity.
+        destruct (negb (valid_flag (if null flags then [65; 76; 76] else flags))); [reflexivity|]. apply Hsign.
+    - (* no wallet selected: every modelled path answers ErrNoWalletInUse before it reads the store *)
+      destruct r; cbn [deep api_request] in *; try contradiction; try reflexivity;
+        unfold task_queue, wm_balance, wm_auto_create, wm_sign_raw_tx, wm_create_raw_transaction, construct_tx_in;
+        rewrite ?Htc, ?C; try reflexivity. }
+  rewrite E in H. pose proof (handle_panic_only_unfixed _ _ _ _ _ _ Hw He Hs Hr H) as G.
+  destruct p; cbn in G; try discriminate; auto.
+Qed.
+
+(* ---------------------------------------------------------------- witnesses for the code as found *)
+(* a state with one unmined transaction (hash 1: a standard and a binding output of the selected
+   wallet) and one mined credit (hash 2, output 0) *)
+Definition o_std : outv := {| ov_parse := Some PkStd; ov_mine := true; ov_addrs := Some 1%nat; ov_keys := true |}.
+Definition o_bind : outv := {| ov_parse := Some PkBinding; ov_mine := true; ov_addrs := Some 2%nat; ov_keys := true |}.
+Definition tx_pending : txv := [o_std; o_bind].
+Definition txof0 (h : N) : txv := if (h =? 1)%N then tx_pending else if (h =? 2)%N then [o_std] else [].
+Definition store0 : store :=
+  {| st_credit := fun h i => if (h =? 2)%N && (i =? 0) then Found [o_std] 7 else NotFound;
+     st_unmined := fun h => if (h =? 1)%N then Some tx_pending else None;
+     st_utxo := fun h i => if (h =? 1)%N && (0 <=? i) && (i <? 2) then Some false
+                           else if (h =? 2)%N && (i =? 0) then Some false else None |}.
+Definition w_sel : wst := {| cur := Some 5%N; cur2 := Some 5%N; st := store0; taskchan := true |}.
+Definition w_none : wst := {| cur := None; cur2 := None; st := store0; taskchan := true |}.
+Definition w_race : wst := {| cur := Some 5%N; cur2 := None; st := store0; taskchan := true |}.       (* removal completed between two reads *)
+Definition w_starting : wst := {| cur := None; cur2 := None; st := store0; taskchan := false |}.      (* worker() not yet scheduled *)
+
+Lemma wf_store0 : wf_store store0.
+Proof.
+  exists txof0. split; [|split].
+  - intros h i t ht H. cbn in H. destruct ((h =? 2)%N && (i =? 0)) eqn:E; [|discriminate].
+    inversion H; subst. bool_hyps. apply N.eqb_eq in H0. subst. cbn.
+    split; [reflexivity|]. split; [lia|]. exists o_std. split; [reflexivity|].
+    split; [discriminate|]. exists 0%nat. reflexivity.
+  - intros h t H. cbn in H. unfold txof0. destruct (h =? 1)%N; [inversion H; reflexivity|discriminate].
+  - intros h i b H. cbn in H. unfold txof0.
+    destruct ((h =? 1)%N && (0 <=? i) && (i <? 2)) eqn:E.
+    + bool_hyps. rewrite H0. cbn. lia.
+    + destruct ((h =? 2)%N && (i =? 0)) eqn:E2; [|discriminate]. bool_hyps.
+      apply N.eqb_eq in H0. subst. cbn. lia.
+Qed.
+
+Definition txid_of (n : Z) : str := repeat 48 63 ++ [48 + n].      (* 64 characters *)
+Definition env0 : env :=
+  {| e_rest_ok := true; e_decode_tx := fun _ => Some [(1%N, 0)]; e_sign_ok := true; e_selected := [];
+     e_next_addr := Some [tt]; e_history_batches := [[2]] |}.
+Lemma wf_env0 : wf_env env0.
+Proof. split; [intros mas H; inversion H; reflexivity|repeat constructor; lia]. Qed.
+Lemma selected_ok0 w : selected_ok w env0.
+Proof. intros h i []. Qed.
+
+Definition id_trim (s : str) : str := s.
+Definition one_mass : list (str * str) := [([109], [49])].          (* {"m": "1"} *)
+Definition pass6 : str := [49; 50; 51; 52; 53; 54].
+
+(* E1a: manual transaction from a pending output with an index beyond its outputs *)
+Definition req_cti_index : request := RCreateRawTransaction [ {| in_txid := txid_of 1; in_vout := 2 |} ] one_mass 0 [109] [].
+(* E1b: manual transaction from a pending BINDING output *)
+Definition req_cti_block : request := RCreateRawTransaction [ {| in_txid := txid_of 1; in_vout := 1 |} ] one_mass 0 [109] [].
+(* E1c: signing a transaction that spends a pending output *)
+Definition req_sign_meta : request := RSignRawTransaction [48; 48] pass6 [].
+
+Theorem as_found_refuted :
+  wf w_sel /\ sequential w_sel /\ wf_env env0 /\
+  handle id_trim as_found env0 w_sel req_cti_index = Panic PCtiIndex /\
+  handle id_trim as_found env0 w_sel req_cti_block = Panic PCtiBlockNil /\
+  handle id_trim as_found env0 w_sel req_sign_meta = Panic PSignMetaNil /\
+  (* WalletManager level *)
+  handle id_trim as_found env0 w_sel (RWmCreateRawTransaction [] 1 true) = Panic PSenders0 /\
+  handle id_trim as_found env0 w_none (RWmEstimateManualTxFee [ {| in_txid := [50]; in_vout := 0 |} ]) = Panic PExistsTxCurNil /\
+  handle id_trim as_found env0 w_sel (RWmGetTxHistory (-1)) = Panic PSelectSlice /\
+  (* the background removal completes between two reads of the current keystore *)
+  handle id_trim as_found env0 w_race (RGetWalletBalance 1 true) = Panic PBalanceCurNil /\
+  handle id_trim as_found env0 w_race (RGetUtxo []) = Panic PUnspentsCurNil /\
+  handle id_trim as_found env0 w_race req_sign_meta = Panic PExistsTxCurNil /\
+  handle id_trim as_found env0 w_race RGetAllAddressesWithPubkey = Panic PPubkeyCurNil /\
+  (* a request before the worker goroutine created the task queue *)
+  handle id_trim as_found env0 w_starting (RImportWallet [123; 125] pass6) = Panic PTaskChanNil /\
+  (* the import task meets a transaction the index lists but the script reader does not accept *)
+  async_import as_found [ImpRelevant; ImpNotRelevant] = Panic PImportRecNil.
+Proof.
+  split; [exact wf_store0|]. split; [reflexivity|]. split; [exact wf_env0|].
+  repeat split; vm_compute; reflexivity.
+Qed.
+
+(* the same requests on the repaired code are answered *)
+Theorem witnesses_fixed :
+  handle id_trim all_fixed env0 w_sel req_cti_index = Err ErrBelow /\
+  handle id_trim all_fixed env0 w_sel req_cti_block = Err ErrBelow /\   (* the fee estimate looks in the mined bucket only *)
+  handle id_trim all_fixed env0 w_sel req_sign_meta = Ok tt /\
+  handle id_trim all_fixed env0 w_sel (RWmCreateRawTransaction [] 1 true) = Err ErrBelow /\
+  handle id_trim all_fixed env0 w_race (RGetWalletBalance 1 true) = Err ErrBelow /\
+  handle id_trim all_fixed env0 w_starting (RImportWallet [123; 125] pass6) = Ok tt /\
+  handle id_trim all_fixed env0 w_sel (RWmGetTxHistory (-1)) = Ok tt /\
+  async_import all_fixed [ImpRelevant; ImpNotRelevant] = Ok tt.
+Proof. repeat split; vm_compute; reflexivity. Qed.
+
+(* filterTx without its length test (a mutation the exploration must catch) *)
+Theorem filter_tx_unguarded_refuted : filter_tx_input false 2 2 = Panic PFilterTxIndex.
+Proof. reflexivity. Qed.
+
+(* ---------------------------------------------------------------- generic bounds facts the inventory refers to *)
+(* wire.Hash.String() (inlined at every logging call): for i := 0; i < HashSize/2; i++ { h[i], h[HashSize-1-i] = … } on a [32]byte *)
+Lemma hash_string_in_bounds i : 0 <= i < 16 -> 0 <= i < 32 /\ 0 <= 31 - i < 32.
+Proof. lia. Qed.
+(* hex.EncodeToString (inlined): dst := make([]byte, 2*len(src)); dst[2i], dst[2i+1] for i < len(src) *)
+Lemma hex_encode_in_bounds n i : 0 <= i < n -> 0 <= 2 * i /\ 2 * i + 1 < 2 * n.
+Proof. lia. Qed.
+(* binary.BigEndian.Uint64(b[a:a+8]) / Uint32 / PutUint16 and the fixed-width key codecs of txmgr:
+   a cut [a:b] of a slice whose length was tested (or constructed) to be at least b *)
+Lemma fixed_width_in_bounds {A} p (l : list A) a b : 0 <= a <= b -> b <= lenZ l ->
+  exists x y, slice_split p l a = Ok (x, y) /\ exists u v, slice_split p y (b - a) = Ok (u, v).
+Proof.
+  intros Hab Hb. destruct (slice_in_bounds p l a ltac:(lia)) as (x & y & E). exists x, y. split; [assumption|].
+  unfold slice_split in E. destruct ((a <? 0) || (lenZ l <? a)); [discriminate|]. inversion E; subst.
+  apply slice_in_bounds. unfold lenZ in *. rewrite skipn_length. lia.
+Qed.
+(* sort.Slice(x, func(i, j int) bool { … x[i] … x[j] … }): the sort calls less with 0 <= i, j < len(x) *)
+Lemma sort_less_in_bounds {A} p (l : list A) i j : 0 <= i < lenZ l -> 0 <= j < lenZ l ->
+  exists a b, idx p l i = Ok a /\ idx p l j = Ok b.
+Proof. intros Hi Hj. destruct (idx_in_bounds p l i Hi) as (a & ->). destruct (idx_in_bounds p l j Hj) as (b & ->). eauto. Qed.
+(* for i := … ; i < len(x); … { x[i] } and for i := len(x)-1; i >= 0; i-- { x[i] } *)
+Lemma loop_index_in_bounds {A} p (l : list A) i : 0 <= i < lenZ l -> exists a, idx p l i = Ok a.
+Proof. apply idx_in_bounds. Qed.
